@@ -13,6 +13,7 @@ from rv.harness import mod, cg_config, deadline, CaseTimeout
 from rv.monitors import counting_clock
 
 LEVEL = "fault_enumeration"
+HUGE_LIMIT = 10.0 ** 15      # a finite limit that no counted run reaches: used when an implementation reads the clock only under a finite limit
 RULE = ("per generated input (complete greedy: n <= 8, numbins 1..4, 5 objectives, sampled switch masks, zeros/ties/small classes; cbldm: n <= 10 with and without cardinality bound; "
         "ckk generator: numbins 2..4, both managers, plus a volume focus of ~10^5 cheap two-/three-way cases per run) the interruption points are enumerated exhaustively with a counting clock (all limits 0..R+1 when R <= 400, else first/last 50, the neighbours of "
         "every incumbent change and a seeded sample up to 400); evaluations = interrupted runs; non-trivial = inputs whose unlimited execution went through >= 2 incumbent improvements; "
@@ -88,6 +89,17 @@ def judge_cg(case, ctx, rng):
     except Exception as e:
         ctx.violation("exception", "cg", case, {"exc": repr(e)[:200], "limit": "inf"})
         return
+    if Rreads == 0:
+        # an implementation may consult the clock only when there is a finite limit: count the reads of an effectively unlimited run instead
+        try:
+            full_finite, Rreads = run(HUGE_LIMIT)
+        except CaseTimeout:
+            ctx.inconc("timeout", case)
+            return
+        except Exception as e:
+            ctx.violation("exception", "cg", case, {"exc": repr(e)[:200], "limit": HUGE_LIMIT})
+            return
+        ctx.counters["clock_read_only_with_finite_limit"] += 1
     ctx.counters["clock_reads"] += Rreads
     if Rreads == 0:
         ctx.inconc("clock_never_read", case)
@@ -187,6 +199,9 @@ def judge_cbldm(case, ctx, rng):
 
     try:
         full, Rreads = run(math.inf)
+        if Rreads == 0:
+            _, Rreads = run(HUGE_LIMIT)          # the clock may be consulted only when there is a finite limit
+            ctx.counters["clock_read_only_with_finite_limit"] += 1
         ctx.counters["clock_reads"] += Rreads
         if Rreads == 0:
             ctx.inconc("clock_never_read", case)
